@@ -268,6 +268,8 @@ def _begin_then_interrupt(ctx, w, readable, writable):
         if r["kind"] != "ok":
             return True
         for k in range(ctx.choice(3, "segs")):
+            if cl.state is None:
+                break       # (the server refused a segment: the transfer is over)
             cl.download_segment(bytes([0x61 + k] * 7), False)
     except Nonconformance as x:
         _nc(ctx, x, "interrupted download %04X:%02X" % (e.index, e.sub))
